@@ -871,6 +871,19 @@ class H3Connection:
                 else "Invalid frame type on push stream"
             )
 
+        # a frame which carries no end-of-stream indication of its own
+        # (PUSH_PROMISE, ignored frame types) may be the last one of the stream
+        if stream_ended and frame_type not in (FrameType.DATA, FrameType.HEADERS):
+            self._check_content_length(stream)
+            http_events.append(
+                DataReceived(
+                    data=b"",
+                    push_id=stream.push_id,
+                    stream_id=stream.stream_id,
+                    stream_ended=True,
+                )
+            )
+
         return http_events
 
     def _init_connection(self) -> None:
